@@ -465,6 +465,9 @@ func runC06(c *engine.Ctx) {
 
 	// ---- R12 ----
 	checkRequestUserFallback(c, "R12")
+
+	// ---- R13 ----
+	checkFreshLookup(c, "R13")
 }
 
 // checkRequestUserFallback: the user that selects the route is taken from Proxy-Authorization for proxy-form requests
@@ -642,6 +645,38 @@ func planOf(f *ssa.Function) (*walkerPlan, string) {
 	return pl, ""
 }
 
+// checkFreshLookup: a request is routed by the registry's answer at the time of the request. Whatever a route walker
+// returns as found must come out of a Routers.Get made for this request — not out of a memo that Listen / Close /
+// Register / UnRegister (and the group controllers, which write the registry directly) would all have to keep coherent.
+func checkFreshLookup(c *engine.Ctx, rule string) {
+	c.Rule(rule, "every value the route walkers (HTTPReverseProxy.getVhost, Muxer.getListener) return as found derives from a Routers.Get call of this lookup")
+	get := method(c, "pkg/util/vhost", "Routers", "Get")
+	if get == nil {
+		return
+	}
+	n := 0
+	for _, sym := range []string{"pkg/util/vhost.HTTPReverseProxy.getVhost", "pkg/util/vhost.Muxer.getListener"} {
+		f := fn(c, sym)
+		if f == nil {
+			continue
+		}
+		engine.ForEachInstr(f, func(in ssa.Instruction) {
+			r, ok := in.(*ssa.Return)
+			if !ok || len(r.Results) != 2 {
+				return
+			}
+			if b, isC := engine.ConstBool(spilledResult(r, 1)); isC && !b {
+				return
+			}
+			n++
+			src := engine.DeepSources(c.P, spilledResult(r, 0))
+			c.Check(src.HasCall(get), fmt.Sprintf("%s>fresh#%d", sym, n), in.Pos(), len(src.Values), nil,
+				"the returned route comes from a registry lookup made for this request")
+		})
+	}
+	c.Floor(n, 2)
+}
+
 func checkWalkers(c *engine.Ctx) {
 	n := 0
 	var plans []*walkerPlan
@@ -651,6 +686,17 @@ func checkWalkers(c *engine.Ctx) {
 			continue
 		}
 		pl, why := planOf(f)
+		if pl == nil {
+			// the walk may have been split out of the entry point (a wrapper that adds logging, metrics, …)
+			for _, g := range allAnon(f) {
+				if g.Parent() == nil {
+					if p2, _ := planOf(g); p2 != nil {
+						pl = p2
+						break
+					}
+				}
+			}
+		}
 		if pl == nil {
 			c.Undecide(sym, f.Pos(), "walker shape not recognised: %s", why)
 			continue
